@@ -84,6 +84,10 @@ Next == /\ Len(h) < MaxLen
            \/ \E s \in Sets : Remeasure(s)
 Spec == Init /\ [][Next]_vars
 
+\* the state without the history variable: under this VIEW the reachable graph is finite, so TLC decides Pure for call
+\* histories of EVERY length (configuration MCEngine_unbounded)
+View == <<loaded, opts, dirty, ver, result>>
+
 \* C06: after every Compute the result is the fresh layout of the base labels under the accumulated options
 Pure == result.kind # "none" => result = Expected
 \* reuse for a second, different label set = fresh engine (instance of Pure; kept separately for readability)
